@@ -16,6 +16,12 @@ TB = ("Trusted base: Go 1.26.8 + 5-file runtime overlay (seeded select/map/timer
 
 # id -> (level category, technique, text, design_ref, note)
 CLAIMED = {
+ "C01": ("exploration", "deterministic simulation: seeded emitter interleavings (yield stalls), latency/jitter/chunking network, typed-handler delivery oracle keyed by unique emission ids",
+         "Real sio server and 1-3 real sio clients over the simulated network on polling / websocket / polling->websocket upgrade, recovery on/off, three buffer limits; up to 8 emitter tasks per run emit events of 12 argument-shape classes and 17 event names with size targets at the 125/126, 32 KiB, 64 KiB and limit boundaries; each emission must reach exactly one handler, the one registered for its name, with equal arguments; any disconnect on the fault-free network is a violation.",
+         "§7 C01", TB),
+ "C14": ("fault_enumeration", "deterministic simulation: black-hole fault enumerated over heartbeat phase x transport x direction + seeded search; detection-time oracle on the fake clock",
+         "Real eio server/client pairs on all three transport modes with ping values 1-3 s; the link is silently black-holed (both ways or one way) at swept and drawn phases of the heartbeat and of the upgrade; each side must report close with a ping-time-out/transport reason no later than its last received heartbeat + pingInterval + pingTimeout (+ overlapping injected stalls); live mode: 50-80 heartbeat periods with traffic at every phase offset, nobody may close.",
+         "§7 C14", TB),
  "C19": ("exploration", "deterministic simulation: seeded yield-point stalls at lock boundaries + timer alignment; latency oracle; porcupine FIFO check",
          "Seeded search over interleavings of pollers/sender goroutine and producers on the real pollQueue/packetQueue (and full stack), with stalls injected exactly between emptiness check and wait; hand-off latency above the overlapping injected stalls is a lost wake-up.",
          "§7 C19", TB),
